@@ -179,7 +179,7 @@ func runCells(base string, cells []Cell) []*Result {
 					bad = true
 				}
 			}
-			if bad {
+			if bad || os.Getenv("VERIF_CELL_DUMP") != "" {
 				b, _ := json.Marshal(r)
 				fmt.Printf("STRESS-FAIL %s: %s\n", sel[i].Name, b)
 			}
